@@ -81,6 +81,8 @@ class Rec:
                     g = next(rec.forced, float("inf"))
                 rec.gaps.append(g)
                 rec.geo_args.append(p)
+                if len(rec.gaps) > MAX_DRAWS:
+                    raise Timeout()      # (as in rnd)
                 return g
             return geo
 
@@ -98,6 +100,8 @@ class Rec:
             r = orig_random()
             if not rec.in_geo:
                 rec.rands.append(r)
+                if len(rec.rands) > MAX_DRAWS:
+                    raise Timeout()      # an endless loop that keeps drawing: stop before the record eats the memory
             return r
 
         def sample(pop, k, **kw):
@@ -118,7 +122,10 @@ class Rec:
         def mk_cl(f):
             def cl(*a, **kw):
                 r = f(*a, **kw)
-                rec.cliques.append([sorted(int(x) for x in c) for c in r])
+                try:
+                    rec.cliques.append([sorted(int(x) for x in c) for c in r])
+                except (TypeError, ValueError):      # labels that are not integers: kept as they are (mapped back by the caller)
+                    rec.cliques.append([list(c) for c in r])
                 return r
             return cl
 
@@ -150,18 +157,40 @@ def _alarm(signum, frame):
     raise Timeout()
 
 
+MEM_GROWTH = 1_500_000_000     # bytes a single generator call may add to the resident set before it is treated as runaway
+_PAGE = os.sysconf("SC_PAGE_SIZE")
+
+
+def _rss():
+    try:
+        with open("/proc/self/statm") as fh:
+            return int(fh.read().split()[1]) * _PAGE
+    except Exception:  # noqa
+        return 0
+
+
 def _wall(signum, frame):
     raise _WallStall()
 
 
-LAST = {"rec": None, "boundary": Counter(), "retries": 0}
+LAST = {"rec": None, "boundary": Counter(), "retries": 0, "f": None, "expired": Counter()}
+MAX_DRAWS = 1_000_000   # recorded draws of one generator call (the grids need a few thousand at most); beyond: treated as non-termination
+MAX_EXPIRIES = 3     # per generator: after that many reported non-terminations its remaining cases are skipped (counted)
 
 
 def _attempt(fn, cpu_seconds, force):
     """one run of fn() with the draws recorded (or forced) under a CPU-time limit: ITIMER_VIRTUAL counts the user time of this
     process only, so a loaded host cannot trip it.  A generous wall-clock backstop (ITIMER_REAL) catches a call that blocks
     without using CPU; it is an infrastructure problem (exit 2), never a verdict."""
-    old_v = signal.signal(signal.SIGVTALRM, _alarm)
+    t0, m0 = os.times().user, _rss()
+
+    def tick(signum, frame):
+        # every 0.2 s of CPU: budget used up, or the call has grown the process by more than MEM_GROWTH (an endless loop that keeps
+        # adding edges must be stopped before it exhausts the host's memory) -> treated as non-termination
+        if os.times().user - t0 >= cpu_seconds or _rss() - m0 > MEM_GROWTH:
+            raise Timeout()
+
+    old_v = signal.signal(signal.SIGVTALRM, tick)
     old_r = signal.signal(signal.SIGALRM, _wall)
     rec = Rec(force)
     LAST["rec"] = rec
@@ -169,7 +198,7 @@ def _attempt(fn, cpu_seconds, force):
         with warnings.catch_warnings():
             warnings.simplefilter("ignore")
             with rec:
-                signal.setitimer(signal.ITIMER_VIRTUAL, cpu_seconds)
+                signal.setitimer(signal.ITIMER_VIRTUAL, min(0.2, cpu_seconds), 0.2)
                 signal.setitimer(signal.ITIMER_REAL, 30 * cpu_seconds + 30)
                 try:
                     return fn(), None, rec
@@ -193,9 +222,12 @@ def guarded(fn, seconds=2.0, force=None):
     budget, and only a second expiry is returned as Timeout (reported by the callers as non-termination).
     fn must build its arguments afresh on every call.  Returns (value | None, exception | None, rec)."""
     val, ex, rec = _attempt(fn, seconds, force)
-    if isinstance(ex, Timeout):
+    if isinstance(ex, Timeout) and not LAST["expired"][LAST["f"]]:
+        # (a generator that has already been reported as non-terminating in this run is not given the long budget again)
         LAST["retries"] += 1
         val, ex, rec = _attempt(fn, 10 * seconds, force)
+    if isinstance(ex, Timeout):
+        LAST["expired"][LAST["f"]] += 1
     return val, ex, rec
 
 
@@ -222,6 +254,31 @@ def snapshot(H):
     nodes = [int(n) for n in H.nodes]
     edges = [sorted(int(x) for x in e) for e in H.edges.members()]
     return {"nodes": sorted(nodes), "node_list": nodes, "edges": edges}
+
+
+# node-label schemes of the second hardening round (labels are arithmetic-free in every generator that takes a network or a graph):
+# position i of the case <-> label; the network handed to the generator carries the labels, the result is read back through the
+# inverse map, so predicates and model requests stay in the integer name space
+LABELS = {
+    "int": lambda i: i,
+    "str": lambda i: f"v{i}",
+    "tuple": lambda i: (i // 3, i % 3),                      # the node names of networkx.grid_2d_graph
+    "big": lambda i: 2 ** 53 + 1 + 2 * i,                    # integers that float64 cannot tell apart
+    "mixed": lambda i: f"v{i}" if i % 2 == 0 else i,
+    "neg": lambda i: i - 2,                                  # ..., -2, -1, 0, 1: includes node_swap's default temporary id -1
+}
+
+
+def snapshot_lab(H, inv):
+    """snapshot(H) with every label mapped back through `inv`; (None, detail) if a node or member is not a label that was handed in"""
+    nodes = list(H.nodes)
+    mem = [list(e) for e in H.edges.members()]
+    foreign = [x for x in nodes if x not in inv] + [x for e in mem for x in e if x not in inv]
+    if foreign:
+        return None, (f"nodes {nodes[:12]} / members {mem[:6]} contain {foreign[:4]}, which are not among the labels handed in "
+                      f"{list(inv)[:8]}")
+    nl = [inv[x] for x in nodes]
+    return {"nodes": sorted(nl), "node_list": nl, "edges": [sorted(inv[x] for x in e) for e in mem]}, None
 
 
 def shaped(v, shape):
@@ -298,14 +355,14 @@ def pred_forced(case, snap, n, size, mult):
     force = case.get("force")
     if force is None:
         return []
-    combos = all_subsets(range(n), size)
     got = Counter(tuple(e) for e in snap["edges"])
+    first, last = tuple(range(size)), tuple(range(n - size, n))      # combos[0], combos[-1] without enumerating (n may be large)
     if force == "ones":
-        want = Counter({tuple(e): mult for e in combos})
+        want = Counter({tuple(e): mult for e in all_subsets(range(n), size)})
     elif case.get("force_kind") == "last":
-        want = Counter({tuple(combos[-1]): 1})
+        want = Counter({last: 1})
     elif case.get("force_kind") == "firstlast":
-        want = Counter({tuple(combos[0]): 1, tuple(combos[-1]): 1})
+        want = Counter({first: 1, last: 1})
     elif case.get("force_kind") == "beyond":
         want = Counter()
     else:
@@ -352,7 +409,8 @@ def run_case(case):
     def out(snap, ex):
         if isinstance(ex, Timeout):
             # both attempts (CPU budget, then ten times the budget) expired: reported as non-termination, whatever else
-            fails[:] = [("nonterminating", "no result within the CPU-time budget, nor within ten times that budget on a second attempt")]
+            fails[:] = [("nonterminating", "no result within the CPU-time budget, nor within ten times that budget on a second attempt "
+                                           "(or the call kept drawing / growing the process beyond the caps)")]
         return dict(impl=snap if ex is None else exc_out(ex), fails=fails, req=req, ordered=ordered)
 
     I = (lambda x: np.int64(x)) if a.get("ints") == "np" else (lambda x: x)    # integer parameters as numpy integers
@@ -384,7 +442,9 @@ def run_case(case):
         fails += pred_forced(case, snap, n, rounds[0][0] if rounds else 0, 1)
         if len({s for s, _ in rounds}) == len(rounds):
             fails += pred_nodup(H, snap)
-        if f == "fast_random_hypergraph":
+        if case.get("big"):
+            req = None      # index space beyond 2**53: the model's Pascal-recursion choose is not runnable there; predicate only
+        elif f == "fast_random_hypergraph":
             req = {"f": f, "n": n, "pks": [kind(p) for p in ps], "order": order, "gaps": rec.gap_list()}
         else:
             coins, it = [], iter(rec.rands)
@@ -447,6 +507,8 @@ def run_case(case):
             else:
                 fails += pred_orders(snap, n, [(m, p)])
             req = {"f": f, "n": n, "m": m, "multi": bool(multi), "pk": kind(p), "gaps": rec.gap_list()}
+            if case.get("big"):
+                req = None      # (as for fast_random_hypergraph)
         return out(snap, None)
 
     if f == "uniform_HSBM":
@@ -565,6 +627,12 @@ def run_case(case):
         rem = sum(k0.values()) % m
         samples = list(rec.samples)
         bump = []
+        # "never exceed the prescribed degrees": strict (no + 1) for every sequence the function accepts as realizable
+        # (sum(k) % m == 0; theorem config_degree_le_realizable).  A sequence with a remainder is announced as "not realizable"
+        # (warning) and the documented adjustment adds one connection to m - rem randomly chosen nodes: there the bound is
+        # prescribed + 1 on exactly those nodes (theorem config_degree_le) and the case is counted separately
+        LAST["boundary"]["config-model:realizable-sequence(strict bound)" if rem == 0 else
+                         "config-model:non-realizable-sequence(documented +1 adjustment on m - rem nodes)"] += 1
         if rem != 0:
             bump = samples.pop(0)[2]
             if len(bump) != m - rem or len(set(bump)) != len(bump):
@@ -643,6 +711,30 @@ def run_case(case):
             for u in k1:
                 if all(k1[u] * k2[v] >= S for v in k2) and any(u not in mem.get(v, ()) for v in k2):
                     fails.append(("saturated-node-missing", f"node {u}: k1[u]*k2[v] >= S for every edge, yet it is not in every edge"))
+                    break
+        if f == "dcsbm_hypergraph" and all(u in g1 for u in k1) and all(v in g2 for v in k2):
+            # the min(p, 1) clipping branch (theorem dcsbm_saturated): a node whose probability k1[u]*k2[v]*omega/(kappa1*kappa2) reaches 1
+            # for every edge label v of an edge community b is in every edge of that community.  Decided in exact integers; where the
+            # code's float product falls below 1 although the exact value does not, the clause is skipped (counted as float boundary).
+            done = False
+            for u in k1:
+                for b in sorted(set(g2.values())):
+                    K = ka[g1[u]] * kb[b]
+                    vs = [v for v in k2 if g2[v] == b]
+                    w = int(om[g1[u], b])
+                    if K <= 0 or not vs or not all(k1[u] * k2[v] * w >= K for v in vs):
+                        continue
+                    if not all(k1[u] * k2[v] * (w / K) >= 1 for v in vs):
+                        LAST["boundary"]["float-boundary:dcsbm_saturated"] += 1
+                        continue
+                    LAST["boundary"]["clause:dcsbm_saturated"] += 1
+                    miss = [v for v in vs if u not in mem.get(v, ())]
+                    if miss:
+                        fails.append(("saturated-node-missing", f"node {u} (community {g1[u]}): k1[u]*k2[v]*omega >= kappa1*kappa2 for every edge "
+                                                                f"of community {b}, yet it is not in edge {miss[0]}"))
+                        done = True
+                        break
+                if done:
                     break
         return out(snap, None)
 
@@ -812,6 +904,8 @@ def run_case(case):
                 raise Infra("random_flag_complex did not call networkx.fast_gnp_random_graph")
         else:
             n, gedges = a["n"], [sorted(e) for e in a["edges"]]
+            lab = LABELS[a.get("labels", "int")]
+            inv = {lab(i): i for i in range(n)}
             G = nx.Graph()
             # the same graph in an arbitrary construction order (vertex order, edge order, edge orientation): the
             # cliques of a graph do not depend on how it was built
@@ -822,8 +916,18 @@ def run_case(case):
             if rr.random() < 0.7:
                 rr.shuffle(vs)
                 rr.shuffle(ins)
-            G.add_nodes_from(vs)
-            G.add_edges_from(ins)
+            G.add_nodes_from([lab(v) for v in vs])
+            held = a.get("held")
+            if held:
+                # HELD-OBJECT family: the same graph object was already passed to the generator once, with other options and
+                # before an edit that keeps the numbers of nodes and edges; the call judged below must not see any of that
+                G.add_edges_from([[lab(x) for x in e] for e in held["edges0"]])
+                if f == "flag_complex":
+                    guarded(lambda: xgi.flag_complex(G, max_order=held.get("max_order", 2), ps=held.get("ps"), seed=seed))
+                else:
+                    guarded(lambda: xgi.flag_complex_d2(G, p2=held.get("p2"), seed=seed))
+                G.remove_edges_from(list(G.edges()))
+            G.add_edges_from([[lab(x) for x in e] for e in ins])
             if f == "flag_complex":
                 H, ex, rec = guarded(lambda: xgi.flag_complex(G, max_order=None if mo is None else I(mo), ps=None if ps is None else shaped(ps, a.get("ps_shape", "list")), seed=seed))
             else:
@@ -833,7 +937,13 @@ def run_case(case):
         if ex is not None:
             fails.append(("raises", repr(ex)[:200]))
             return out(None, ex)
-        snap = snapshot(H)
+        if not f.startswith("random") and a.get("labels", "int") != "int":
+            snap, foreign = snapshot_lab(H, inv)
+            if snap is None:
+                fails.append(("node-set", foreign))
+                return out({"out": "foreign-labels"}, None)
+        else:
+            snap = snapshot(H)
         top = n if mo is None else mo      # max_order=None: no bound (the faces of the maximal cliques)
         single = [e for e in snap["edges"] if len(e) == 1]
         if single:
@@ -865,6 +975,8 @@ def run_case(case):
                 fails.append(("p0-has-edges", "promotion probability 0 but a clique was filled"))
             # which cliques won their coin: the recorded clique list (in the code's own order) zipped with the recorded draws
             listed = rec.cliques[0] if rec.cliques else []
+            if not f.startswith("random") and a.get("labels", "int") != "int":
+                listed = [sorted(inv[x] for x in c) for c in listed]
             coins, picked = iter(rec.rands), []
             if f == "flag_complex_d2":
                 picked = [c for c in listed if next(coins, 2.0) <= ps[0]]    # 2.0: a draw the code did not make
@@ -874,7 +986,95 @@ def run_case(case):
             req = {"f": "flag_complex_ps", "n": n, "edges": gedges, "max_order": top, "picked": picked, "extra": len(list(coins))}
         if single:
             req = None       # the model describes the complex without 1-node simplices; the predicate failure above is the report
+        if any(cls == "p0-has-edges" for cls, _ in fails):
+            req = None       # (the same: the predicate failure is the report, the model has no promoted clique)
         ordered = False
+        return out(snap, None)
+
+    if f == "shuffle_hyperedges":
+        # randomizing generator (xgi/generators/randomizing.py): predicate only, no Lean model.  The statement's clauses that apply:
+        # exactly the node set of the input, every edge a set of existing nodes, the shuffled edges keep their size (order + 1),
+        # the other edges are untouched, p = 0 changes nothing; the rejection loop `while new_hyperedge in H._edge.values()` shows
+        # that a shuffled edge must not repeat an existing edge (judged on inputs without repeated edges)
+        n, edges, d, p = a["n"], [sorted(e) for e in a["edges"]], a["order"], a["p"]
+        lab = LABELS[a.get("labels", "int")]
+        inv = {lab(i): i for i in range(n)}
+        cls_in = a.get("cls", "Hypergraph")
+        if cls_in == "SimplicialComplex":
+            S = xgi.SimplicialComplex()
+            S.add_nodes_from([lab(i) for i in range(n)])
+            for e in edges:
+                S.add_simplex([lab(x) for x in e])
+            edges = sorted(sorted(inv[x] for x in e) for e in S.edges.members())
+        else:
+            S = (type("MyHypergraph", (xgi.Hypergraph,), {}) if cls_in == "subclass" else xgi.Hypergraph)()
+            S.add_nodes_from([lab(i) for i in range(n)])
+            for e in edges:
+                S.add_edge([lab(x) for x in e])
+        held = a.get("held")
+        if held and cls_in != "SimplicialComplex":
+            # HELD-OBJECT family: the same network object went through the generator once (other order / p) in an earlier state:
+            # one edge differed (same numbers of nodes and edges)
+            last = list(S.edges)[-1]
+            S.remove_edge(last)
+            S.add_edge([lab(x) for x in held["edge0"]])
+            guarded(lambda: xgi.shuffle_hyperedges(S, held["order"], held["p"], seed=seed), seconds=4.0)
+            S.remove_edge(list(S.edges)[-1])
+            S.add_edge([lab(x) for x in edges[-1]])
+        before = snapshot_lab(S, inv)[0]
+        H, ex, rec = guarded(lambda: xgi.shuffle_hyperedges(S, I(d), p, seed=seed), seconds=4.0)
+        if ex is not None:
+            fails.append(("raises", repr(ex)[:200]))
+            return out(None, ex)
+        if snapshot_lab(S, inv)[0] != before:
+            fails.append(("input-changed", "the network handed in is not the same afterwards"))
+        snap, foreign = snapshot_lab(H, inv)
+        if snap is None:
+            fails.append(("node-set", foreign))
+            return out({"out": "foreign-labels"}, None)
+        if not isinstance(H, xgi.Hypergraph) or isinstance(H, xgi.SimplicialComplex):
+            fails.append(("wrong-class", f"returned a {type(H).__name__}, documented: a Hypergraph"))
+        fails += pred_common(H, snap, range(n))
+        got = snap["edges"]
+        if sorted(len(e) for e in got) != sorted(len(e) for e in edges):
+            fails.append(("size-not-allowed", f"edge sizes {sorted(len(e) for e in got)} differ from the input's {sorted(len(e) for e in edges)}: "
+                                              f"a shuffled edge must keep size {d + 1}, no edge may be lost or added"))
+        if sorted(e for e in got if len(e) != d + 1) != sorted(e for e in edges if len(e) != d + 1):
+            fails.append(("other-orders-changed", f"edges of sizes other than {d + 1} differ from the input's"))
+        if p == 0 and sorted(got) != sorted(edges):
+            fails.append(("p0-has-edges", "p = 0 but an edge was shuffled"))
+        if len({tuple(e) for e in edges}) == len(edges):
+            fails += [x for x in pred_nodup(H, snap) if x[0] == "duplicate-edge"][:1]
+        return out(snap, None)
+
+    if f == "node_swap":
+        # xgi/generators/randomizing.py, deterministic: the result is the input with the two nodes exchanged in the edges of the
+        # given order (all edges for order=None) - same node set, every edge keeps its size, the input is not changed
+        n, edges, d = a["n"], [sorted(e) for e in a["edges"]], a.get("order")
+        lab = LABELS[a.get("labels", "int")]
+        inv = {lab(i): i for i in range(n)}
+        S = xgi.Hypergraph()
+        S.add_nodes_from([lab(i) for i in range(n)])
+        for e in edges:
+            S.add_edge([lab(x) for x in e])
+        before = snapshot_lab(S, inv)[0]
+        x1, x2 = a["nid1"], a["nid2"]
+        H, ex, rec = guarded(lambda: xgi.node_swap(S, lab(x1), lab(x2), order=d))
+        if ex is not None:
+            fails.append(("raises", repr(ex)[:200]))
+            return out(None, ex)
+        if snapshot_lab(S, inv)[0] != before:
+            fails.append(("input-changed", "the network handed in is not the same afterwards"))
+        snap, foreign = snapshot_lab(H, inv)
+        if snap is None:
+            fails.append(("node-set", foreign))
+            return out({"out": "foreign-labels"}, None)
+        fails += pred_common(H, snap, range(n))
+        tr = {x1: x2, x2: x1}
+        want = sorted(sorted(tr.get(x, x) for x in e) if (d is None or len(e) == d + 1) else e for e in edges)
+        if sorted(snap["edges"]) != want:
+            fails.append(("swap-not-exact", f"edges {sorted(snap['edges'])} but exchanging {x1} and {x2} in the edges of "
+                                            f"{'every order' if d is None else 'order ' + str(d)} gives {want}"))
         return out(snap, None)
 
     raise Infra(f"unknown generator {f}")
@@ -891,32 +1091,154 @@ def decoder_cases(ctx):
     return cases
 
 
+def budgeted(site, fn, seconds):
+    """fn() under the CPU-time budget of `guarded`, with the warnings it emits collected (guarded() itself silences them):
+    returns (value, exception | None, [warning messages]).  A decoder that loops for ever must not hang the check."""
+    wl = []
+
+    def body():
+        with warnings.catch_warnings(record=True) as w:
+            warnings.simplefilter("always")
+            try:
+                return fn()
+            finally:
+                wl.extend(str(x.message) for x in w)
+    LAST["f"] = site
+    if LAST["expired"][site] >= MAX_EXPIRIES:
+        return None, Timeout(), wl
+    val, ex, _ = guarded(body, seconds=seconds)
+    return val, ex, wl
+
+
+def rank_comb(c, n, m):
+    """lexicographic rank of the strictly increasing m-tuple `c` among itertools.combinations(range(n), m), exact integers
+    (hockey-stick: the tuples with the same prefix and a smaller entry v at position i number C(n-1-v, m-i-1) each)"""
+    rank, prev = 0, -1
+    for i, ci in enumerate(c):
+        rank += math.comb(n - (prev + 1), m - i) - math.comb(n - ci, m - i)
+        prev = ci
+    return rank
+
+
+def big_decoder_cases(ctx):
+    """single indices far beyond the exhaustive scope: index spaces larger than 2**53 (where a float anywhere in the decoder
+    loses the low bits), at the boundaries where an entry of the decoded tuple changes, at both ends, and at PRNG-drawn
+    indices.  `comb`: predicate only (decoded tuple strictly increasing within range(n) and of lexicographic rank = index;
+    the model's choose is a Pascal recursion, not runnable at this size - the theorem comb_decode covers all n, m);
+    `prod`, `partition`: predicate (exact mixed-radix reference) + the model on the same index."""
+    rng = ctx.rng
+    cases = []
+    for n, m in [(300, 10), (64, 32), (1000, 8), (100000, 5), (400000, 3)]:
+        tot = math.comb(n, m)
+        b1 = math.comb(n - 1, m - 1)                     # first index whose tuple starts with 1
+        b2 = b1 + math.comb(n - 2, m - 1)                # ... with 2
+        c2 = math.comb(n - 2, m - 2)                     # first index whose tuple starts with 0, 2
+        idx = [0, 1, b1 - 1, b1, b1 + 1, b2 - 1, b2, c2 - 1, c2, tot - 1]
+        idx += [rng.randrange(min(tot, 2 * b2)) for _ in range(ctx.n(3, 12))]
+        cases.append({"f": "decode_big", "which": "comb", "n": n, "m": m, "indices": sorted(set(i for i in idx if 0 <= i < tot))})
+    for n, m in [(2 ** 21, 3), (10 ** 6, 3), (1000, 7)]:
+        tot = n ** m
+        idx = [0, 2 ** 53 + 1, 2 ** 53 + 3, tot - 1, tot - 2, n ** (m - 1), n ** (m - 1) - 1]
+        idx += [rng.randrange(2 ** 53, tot) for _ in range(ctx.n(4, 20))]
+        cases.append({"f": "decode_big", "which": "prod", "n": n, "m": m, "indices": sorted(set(i for i in idx if 0 <= i < tot))})
+    for sizes in ([300000, 300000, 300000], [7, 10 ** 9, 10 ** 9], [3, 5, 2 ** 31, 2 ** 30]):
+        tot = math.prod(sizes)
+        idx = [0, 2 ** 53 + 1, 2 ** 53 + 3, tot - 1, tot - 2, tot // sizes[0], tot // sizes[0] - 1]
+        idx += [rng.randrange(2 ** 53, tot) | 1 for _ in range(ctx.n(4, 20))]
+        cases.append({"f": "decode_big", "which": "partition", "sizes": sizes, "indices": sorted(set(i for i in idx if 0 <= i < tot))})
+    return cases
+
+
+def run_decoder_big(c):
+    """returns (list of (index, decoded), predicate failures [(site, class, detail)], model requests for the indices that passed)"""
+    _, GU, _ = _mods()
+    fails, out, reqs = [], [], []
+    which = c["which"]
+    site = {"comb": "_index_to_edge_comb", "prod": "_index_to_edge_prod", "partition": "_index_to_edge_partition"}[which]
+    w = []
+    if True:
+        for i in c["indices"]:
+            if LAST["expired"][site] >= MAX_EXPIRIES:
+                break
+            if which == "comb":
+                call = lambda: [int(x) for x in GU._index_to_edge_comb(i, c["n"], c["m"])]
+            elif which == "prod":
+                call = lambda: [int(x) for x in GU._index_to_edge_prod(i, c["n"], c["m"])]
+            else:
+                call = lambda: [int(x) for x in GU._index_to_edge_partition(i, list(c["sizes"]), len(c["sizes"]))]
+            got, ex, wl = budgeted(site, call, 4.0)
+            w += wl
+            if isinstance(ex, Timeout):
+                fails.append((site, "nonterminating", f"index {i}: no result within the CPU-time budget"))
+                continue
+            if ex is not None:
+                fails.append((site, "raises", f"index {i}: {ex!r}"[:160]))
+                continue
+            out.append([i, got])
+            if which == "comb":
+                n, m = c["n"], c["m"]
+                good = len(got) == m and all(0 <= x < n for x in got) and all(a < b for a, b in zip(got, got[1:]))
+                if not good or rank_comb(got, n, m) != i:
+                    fails.append((site, "not-bijection-large-index", f"comb({n}, {m}), index {i}: decoded {got}, which is "
+                                  + (f"the tuple of rank {rank_comb(got, n, m)}" if good else "not an increasing tuple within range(n)")))
+                continue
+            radix = [c["n"]] * c["m"] if which == "prod" else list(c["sizes"])
+            want, rest = [], i
+            for sz in reversed(radix):
+                want.append(rest % sz)
+                rest //= sz
+            want.reverse()
+            if got != want:
+                fails.append((site, "not-bijection-large-index", f"sizes {radix}, index {i}: decoded {got}, the tuple with this "
+                                                                 f"mixed-radix index is {want}"))
+            elif which == "prod":
+                reqs.append(({"f": "index_to_edge_prod", "n": c["n"], "m": c["m"], "index": i}, got))
+            else:
+                reqs.append(({"f": "index_to_edge_partition", "sizes": radix, "index": i}, got))
+    if w:
+        fails.append((site, "warns-on-valid-index", w[0][:120]))
+    # one report per case (the first failing index), the count in the detail
+    if len(fails) > 1:
+        fails = [(fails[0][0], fails[0][1], fails[0][2] + f" (+{len(fails) - 1} more indices of this case)")]
+    return out, fails, reqs
+
+
 def run_decoder(c):
     """returns (impl result, predicate failures): the predicate is `bijection onto itertools.combinations/product`"""
     _, GU, _ = _mods()
     fails = []
-    with warnings.catch_warnings(record=True) as w:
-        warnings.simplefilter("always")
-        if c["f"] == "decode_comb_all":
-            n, m = c["n"], c["m"]
-            cnt = math.comb(n, m)
-            got = [[int(x) for x in GU._index_to_edge_comb(i, n, m)] for i in range(cnt)]
-            ref = [list(t) for t in itertools.combinations(range(n), m)]
-            site = "_index_to_edge_comb"
-        elif c["f"] == "decode_prod_all":
-            n, m = c["n"], c["m"]
-            cnt = n ** m
-            got = [[int(x) for x in GU._index_to_edge_prod(i, n, m)] for i in range(cnt)]
-            ref = [list(t) for t in itertools.product(range(n), repeat=m)]
-            site = "_index_to_edge_prod"
-        else:
-            sizes = c["sizes"]
-            cnt = int(np.prod(sizes)) if sizes else 1
-            got = [[int(x) for x in GU._index_to_edge_partition(i, sizes, len(sizes))] for i in range(cnt)]
-            ref = [list(t) for t in itertools.product(*[range(s) for s in sizes])]
-            site = "_index_to_edge_partition"
+    wlist = []
+
+    def sweep(dec, cnt):
+        val, ex, wl = budgeted(site, lambda: [[int(x) for x in dec(i)] for i in range(cnt)], 5.0)
+        wlist.extend(wl)
+        return val, ex
+
+    if c["f"] == "decode_comb_all":
+        n, m = c["n"], c["m"]
+        cnt = math.comb(n, m)
+        site = "_index_to_edge_comb"
+        got, ex = sweep(lambda i: GU._index_to_edge_comb(i, n, m), cnt)
+        ref = [list(t) for t in itertools.combinations(range(n), m)]
+    elif c["f"] == "decode_prod_all":
+        n, m = c["n"], c["m"]
+        cnt = n ** m
+        site = "_index_to_edge_prod"
+        got, ex = sweep(lambda i: GU._index_to_edge_prod(i, n, m), cnt)
+        ref = [list(t) for t in itertools.product(range(n), repeat=m)]
+    else:
+        sizes = c["sizes"]
+        cnt = int(np.prod(sizes)) if sizes else 1
+        site = "_index_to_edge_partition"
+        got, ex = sweep(lambda i: GU._index_to_edge_partition(i, sizes, len(sizes)), cnt)
+        ref = [list(t) for t in itertools.product(*[range(s) for s in sizes])]
+    w = wlist
+    if ex is not None:
+        cls = "nonterminating" if isinstance(ex, Timeout) else "raises"
+        fails.append((site, cls, "decoding every valid index: " + ("no result within the CPU-time budget" if cls == "nonterminating" else repr(ex)[:120])))
+        return {"all": None, "ref": ref, "count": cnt}, fails
     if w:
-        fails.append((site, "warns-on-valid-index", str(w[0].message)[:120]))
+        fails.append((site, "warns-on-valid-index", w[0][:120]))
     if got != ref:
         bad = next(i for i in range(max(len(got), len(ref))) if i >= len(got) or i >= len(ref) or got[i] != ref[i])
         fails.append((site, "not-bijection", f"index {bad}: decoded {got[bad] if bad < len(got) else None}, "
@@ -1055,6 +1377,14 @@ def gen_cases(ctx, scale=1):
         sizes = [rng.randint(1, 4 if m == 2 else 3) for _ in range(nb)]
         p = np.array([rng.choice([0.0, 0.5, 0.5, 1.0]) for _ in range(nb ** m)]).reshape([nb] * m)
         cases.append({"f": "uniform_HSBM", "args": {"m": m, "sizes": sizes, "p": p.tolist()}, "seed": 1, "force": "ones", "force_kind": None})
+    # the same boundary oracles where the number of candidate edges exceeds 2**53 (a float anywhere in `max_index` shows here)
+    for n, size in [(64, 32), (70, 30), (200, 12)]:
+        cnt = math.comb(n, size)
+        for force, fk in [([cnt, 5], "last"), ([cnt + 1, 1], "beyond"), ([1, cnt - 1, 3], "firstlast")]:
+            extra = {"force": force, "force_kind": fk, "big": True}
+            cases.append(dict({"f": "fast_random_hypergraph", "args": {"n": n, "ps": [0.5], "order": [size - 1]}, "seed": 1}, **extra))
+            cases.append(dict({"f": "uniform_erdos_renyi_hypergraph", "args": {"n": n, "m": size, "p": 0.5, "multiedges": False},
+                               "seed": 1}, **extra))
 
     # uniform_HSBM / HPPM
     for _ in range(ctx.n(500, 12000) * scale):
@@ -1069,7 +1399,7 @@ def gen_cases(ctx, scale=1):
         n, m = rng.randint(0, 8), rng.choice([1, 2, 2, 3])
         kk = rng.choice([0, 1, 2, 3, 0.5, 2.5, 6, -1, m * n ** (m - 1), m * n ** (m - 1) / 2])
         add("uniform_HPPM", {"n": n, "m": m, "k": kk, "epsilon": rng.choice([0, 0.5, 0.9, 1, 1, 0.25, 1.5]),
-                             "rho": rng.choice([0.5, 0.5, 0.3, 0.25, 0, 1, 0.75, -0.5])}, rng.randrange(10 ** 6))
+                             "rho": rng.choice([0.5, 0.5, 0.3, 0.25, 0, 1, 0.75, -0.5, 1.5])}, rng.randrange(10 ** 6))
 
     # complete_hypergraph
     for n in range(0, ctx.n(7, 8)):
@@ -1172,12 +1502,118 @@ def gen_cases(ctx, scale=1):
         r = rng.random()
         ps = None if (r < 0.5 or mo is None) else [rng.choice(PS) for _ in range(rng.randint(1, 3))]
         fa = {"n": n, "edges": edges, "max_order": mo, "ps": ps}
-        if ps is not None and rng.random() < 0.3:
-            fa["ps_shape"] = "tuple"
+        if ps is not None and rng.random() < 0.45:
+            fa["ps_shape"] = rng.choice(["tuple", "array", "array"])
+        # the graph's node labels: integers, strings, tuples (networkx.grid_2d_graph), integers above 2**53, int/str mixed
+        lb = rng.choice(["int", "int", "int", "str", "tuple", "big", "mixed"])
+        fd = {"n": n, "edges": edges, "p2": rng.choice([None, 0.0, 1.0, 0.5])}
+        if lb != "int":
+            fa["labels"], fd["labels"] = lb, lb
         add("flag_complex", fa, rng.randrange(10 ** 6))
-        add("flag_complex_d2", {"n": n, "edges": edges, "p2": rng.choice([None, 0.0, 1.0, 0.5])}, rng.randrange(10 ** 6))
+        add("flag_complex_d2", fd, rng.randrange(10 ** 6))
         add("random_flag_complex", {"n": n, "p": rng.choice(PS), "max_order": rng.choice([1, 2, 3, None])}, rng.randrange(10 ** 6))
         add("random_flag_complex_d2", {"n": n, "p": rng.choice(PS)}, rng.randrange(10 ** 6))
+    return cases
+
+
+def h2_cases(ctx):
+    """second hardening round: the randomizing generator shuffle_hyperedges (predicate only), and REGIME cases - one large
+    network (>= 70 node IDs) per generator family and run, predicate only (`nomodel`)"""
+    rng = ctx.rng
+    cases = []
+    # shuffle_hyperedges on small inputs: labels x classes x p in {0, 1, in between}; inputs mostly without repeated edges
+    for _ in range(ctx.n(160, 3000)):
+        n = rng.randint(2, 7)
+        d = rng.randint(1, min(3, n - 1))
+        ne = rng.randint(1, 7)
+        edges, seen = [], set()
+        for _e in range(ne):
+            size = d + 1 if (not edges or rng.random() < 0.5) else rng.randint(1, min(4, n))
+            e = sorted(rng.sample(range(n), size))
+            if tuple(e) in seen and not (rng.random() < 0.1 and math.comb(n, d + 1) > ne + 1):
+                continue
+            seen.add(tuple(e))
+            edges.append(e)
+        args = {"n": n, "edges": edges, "order": d, "p": rng.choice([0, 1, 1.0, 1.0, 0.5, 0.8])}
+        lb = rng.choice(["int", "int", "str", "tuple", "big", "mixed"])
+        if lb != "int":
+            args["labels"] = lb
+        cl = rng.choice(["Hypergraph", "Hypergraph", "Hypergraph", "SimplicialComplex", "subclass"])
+        if cl != "Hypergraph":
+            args["cls"] = cl
+        if rng.random() < 0.2:
+            args["ints"] = "np"
+        e0 = sorted(rng.sample(range(n), rng.randint(1, min(4, n))))
+        # (the earlier state must not contain a repeated edge: a rejection loop cannot end when every subset of that size is taken)
+        if rng.random() < 0.3 and cl != "SimplicialComplex" and e0 not in edges and len({tuple(e) for e in edges}) == len(edges):
+            args["held"] = {"edge0": e0, "order": len(e0) - 1 if rng.random() < 0.5 else len(edges[0]) - 1, "p": rng.choice([1.0, 0.5])}
+        cases.append({"f": "shuffle_hyperedges", "args": args, "seed": rng.randrange(10 ** 6)})
+    # node_swap: two nodes that both lie in an edge of the order (admissible arguments), all label schemes incl. negative ints
+    for _ in range(ctx.n(80, 1500)):
+        n = rng.randint(2, 7)
+        edges = []
+        for _e in range(rng.randint(1, 6)):
+            edges.append(sorted(rng.sample(range(n), rng.randint(1, min(4, n)))))
+        d = rng.choice([None, None] + sorted({len(e) - 1 for e in edges if len(e) >= 2}))
+        pool = sorted({x for e in edges if d is None or len(e) == d + 1 for x in e})
+        if len(pool) < 2:
+            continue
+        x1, x2 = rng.sample(pool, 2)
+        args = {"n": n, "edges": edges, "nid1": x1, "nid2": x2, "order": d}
+        lb = rng.choice(["int", "str", "tuple", "big", "mixed", "neg", "neg"])
+        if lb != "int":
+            args["labels"] = lb
+        cases.append({"f": "node_swap", "args": args, "seed": None})
+    # flag complexes on a graph object that the generator has seen before (other options, one edge swapped)
+    for _ in range(ctx.n(80, 1500)):
+        n = rng.randint(3, 7)
+        allp = [list(e) for e in itertools.combinations(range(n), 2)]
+        edges = [e for e in allp if rng.random() < rng.choice([0.5, 0.8, 1.0])]
+        edges0 = list(edges)
+        if edges0 and len(edges0) < len(allp):
+            edges0[rng.randrange(len(edges0))] = rng.choice([e for e in allp if e not in edges])
+        mo = rng.choice([1, 2, 3, 4])
+        ps = rng.choice([None, None, [rng.choice(PS) for _ in range(rng.randint(1, 3))]])
+        lb = rng.choice(["int", "str", "big"])
+        fa = {"n": n, "edges": edges, "max_order": mo, "ps": ps,
+              "held": {"edges0": edges0, "max_order": rng.choice([x for x in (1, 2, 3, 4) if x != mo]), "ps": rng.choice([None, [0.5, 0.5, 0.5]])}}
+        fd = {"n": n, "edges": edges, "p2": rng.choice([None, 0.0, 1.0, 0.5]), "held": {"edges0": edges0, "p2": rng.choice([None, 1.0, 0.0])}}
+        if lb != "int":
+            fa["labels"], fd["labels"] = lb, lb
+        cases.append({"f": "flag_complex", "args": fa, "seed": rng.randrange(10 ** 6)})
+        cases.append({"f": "flag_complex_d2", "args": fd, "seed": rng.randrange(10 ** 6)})
+    # REGIME: large inputs, predicate only
+    big = lambda args: args
+    n = rng.randint(70, 90)
+    ring = [[i, (i + 1) % n] for i in range(n)] + [[i, (i + 1) % n, (i + 2) % n] for i in range(0, n, 2)]
+    ring = [sorted(e) for e in ring]
+    for d, lb in ((1, "mixed"), (2, "big"), (1, "tuple")):
+        cases.append({"f": "shuffle_hyperedges", "args": big({"n": n, "edges": ring, "order": d, "p": rng.choice([0.5, 1.0]), "labels": lb}),
+                      "seed": rng.randrange(10 ** 6)})
+    gedges = [[a, b] for a in range(n) for b in range(a + 1, n) if rng.random() < 0.07]
+    cases.append({"f": "flag_complex", "args": big({"n": n, "edges": gedges, "max_order": 2, "ps": None, "labels": rng.choice(["str", "big"])}),
+                  "seed": rng.randrange(10 ** 6)})
+    cases.append({"f": "flag_complex", "args": big({"n": n, "edges": gedges, "max_order": 3, "ps": [0.5, 1.0], "ps_shape": "list"}),
+                  "seed": rng.randrange(10 ** 6)})
+    cases.append({"f": "flag_complex_d2", "args": big({"n": n, "edges": gedges, "p2": 0.5}), "seed": rng.randrange(10 ** 6)})
+    cases.append({"f": "random_flag_complex", "args": big({"n": n, "p": 0.06, "max_order": 2}), "seed": rng.randrange(10 ** 6)})
+    cases.append({"f": "random_simplicial_complex", "args": big({"n": n, "ps": [0.01, 0.0005], "ps_shape": "list"}), "seed": rng.randrange(10 ** 6)})
+    cases.append({"f": "fast_random_hypergraph", "args": big({"n": n, "ps": [0.003, 0.00005], "order": None}), "seed": rng.randrange(10 ** 6)})
+    cases.append({"f": "random_hypergraph", "args": big({"n": 70, "ps": [0.01], "order": None}), "seed": rng.randrange(10 ** 6)})
+    cases.append({"f": "uniform_erdos_renyi_hypergraph", "args": big({"n": n, "m": 3, "p": 0.0005, "multiedges": False}), "seed": rng.randrange(10 ** 6)})
+    cases.append({"f": "uniform_hypergraph_configuration_model", "args": big({"k": [[i, rng.randint(0, 3)] for i in range(n)], "m": 3}),
+                  "seed": rng.randrange(10 ** 6)})
+    cases.append({"f": "chung_lu_hypergraph", "args": big({"k1": [[i, rng.randint(0, 3)] for i in range(n)],
+                                                           "k2": [[j, rng.randint(1, 4)] for j in range(n - 5)]}), "seed": rng.randrange(10 ** 6)})
+    cases.append({"f": "watts_strogatz_hypergraph", "args": big({"n": n, "d": 3, "k": 2, "l": 1, "p": 0.3}), "seed": rng.randrange(10 ** 6)})
+    cases.append({"f": "ring_lattice", "args": big({"n": n, "d": 3, "k": 4, "l": 1}), "seed": None})
+    cases.append({"f": "complete_hypergraph", "args": big({"n": 70, "order": 1}), "seed": None})
+    cases.append({"f": "star_clique", "args": big({"n_star": 45, "n_clique": 30, "d_max": 2}), "seed": None})
+    cases.append({"f": "sunflower", "args": big({"l": 30, "c": 2, "m": 5}), "seed": None})
+    cases.append({"f": "uniform_HSBM", "args": big({"m": 2, "sizes": [40, 35], "p": [[0.01, 0.002], [0.002, 0.01]]}), "seed": rng.randrange(10 ** 6)})
+    for c in cases:
+        if c["f"] not in ("shuffle_hyperedges", "node_swap") or c["args"]["n"] >= 70:
+            c["nomodel"] = True
     return cases
 
 
@@ -1201,12 +1637,22 @@ def nontrivial(snap):
 
 def evaluate(ctx, cases, reqs, expect):
     for case in cases:
+        if LAST["expired"][case["f"]] >= MAX_EXPIRIES:
+            # already reported `nonterminating` MAX_EXPIRIES times for this generator: the verdict stands, the check must end
+            ctx.stats["skipped-after-nontermination:" + case["f"]] += 1
+            continue
+        LAST["f"] = case["f"]
         r = run_case(case)
         ctx.evaluations += 1
         ctx.stats["gen:" + case["f"]] += 1
-        for kk in ("ps_shape", "order_shape", "sizes_shape", "ints"):
+        if case.get("nomodel"):
+            r["req"] = None       # REGIME cases (large networks): predicate only, the interpreted model is not run at that size
+            ctx.stats["regime:predicate-only"] += 1
+        for kk in ("ps_shape", "order_shape", "sizes_shape", "ints", "labels", "cls"):
             if kk in case["args"]:
                 ctx.stats[f"shape:{kk}={case['args'][kk]}"] += 1
+        if "held" in case["args"]:
+            ctx.stats["held-object:" + case["f"]] += 1
         if "max_order" in case["args"] and case["args"]["max_order"] is None and case["f"].endswith("flag_complex"):
             ctx.stats["shape:max_order=None"] += 1
         impl = r["impl"]
@@ -1222,6 +1668,7 @@ def evaluate(ctx, cases, reqs, expect):
             ctx.stats["draws:other"] += len(rec.rands) + len(rec.samples) + sum(int(np.size(x)) for x in rec.nprand)
             if any(not (g >= 1) for g in rec.gaps):
                 ctx.violation("geometric", "gap-below-one", case, detail=f"geometric() returned {[g for g in rec.gaps if not g >= 1][:3]}")
+                r["req"] = None      # the model's oracle is a list of gaps >= 1 (naturals): this draw is outside it, the violation is the report
         # samples: the first corpus case, then a few cases picked by a case-local coin (not always the same first ones)
         if not ctx.samples or jhash([ctx.seed, case]).endswith(("00", "01")):
             ctx.sample({"case": case, "impl": {k: v for k, v in impl.items() if k != "node_list"}}, cap=4)
@@ -1248,6 +1695,8 @@ def compare(ctx, reqs, expect):
         mc = canon(m)
         if req["f"].startswith("decode_"):
             same = mc.get("all") == impl["all"] and mc.get("ref") == impl["ref"] and mc.get("count") == impl["count"]
+        elif req["f"].startswith("index_to_edge_"):
+            same = mc.get("c") == impl["c"]
         elif "out" in impl or "out" in mc:
             same = mc.get("out") == impl.get("out")      # the same exception class
         elif req["f"] in ("chung_lu_hypergraph", "dcsbm_hypergraph"):
@@ -1289,7 +1738,10 @@ def run(ctx):
                 "values, len(ps) != len(order), int parameters as numpy integers in a quarter of the cases, degree/size sequences incl. zero / all-zero / saturating "
                 "entries, communities and omega matrices with zero blocks, block sizes, mean degrees incl. the ones giving q = 0, 1, > 1, "
                 "HPPM (k, epsilon, rho) incl. out-of-range values, the whole (n, d, k, l) lattice grid x p in {0, .3, .7, 1}, random graphs "
-                "on <=7 nodes with max_order in {1..4, None}) x seeds drawn from VERIF_SEED, RNG draws recorded (or forced) and replayed through the model; "
+                "on <=7 nodes with max_order in {1..4, None}, node labels int / str / tuple / > 2**53 / mixed, ps as list / tuple / array) x seeds drawn from "
+                "VERIF_SEED, RNG draws recorded (or forced) and replayed through the model; shuffle_hyperedges on <=7 nodes x 5 label schemes x "
+                "{Hypergraph, subclass, SimplicialComplex} (predicate only); node_swap on <=7 nodes x 6 label schemes incl. negative ints (predicate only); held-object cases (the graph / network object went through the generator "
+                "before, other options, one edge swapped); one 70-90 node case per generator family (predicate only); "
                 "non-trivial = distinct generated network with an edge of >= 2 nodes")
     reqs, expect = [], []
     # decoders: exhaustive small scope, model vs helpers vs itertools
@@ -1301,8 +1753,20 @@ def run(ctx):
             ctx.nontrivial.add(jhash(c))
         for site, cls, detail in fails:
             ctx.violation(site, cls, {"f": c["f"], "args": {k: v for k, v in c.items() if k != "f"}}, detail=detail)
-        reqs.append(c)
-        expect.append(({"f": c["f"], "args": c}, impl, True))
+        if impl["all"] is not None:      # (a decoder that raised / did not return: the violation above is the report)
+            reqs.append(c)
+            expect.append(({"f": c["f"], "args": c}, impl, True))
+    # decoders beyond the exhaustive scope: single large indices (boundaries, ends, drawn), see big_decoder_cases
+    for c in big_decoder_cases(ctx):
+        got, fails, mreqs = run_decoder_big(c)
+        ctx.evaluations += len(c["indices"])
+        ctx.stats["fn:decode_big:" + c["which"]] += len(c["indices"])
+        ctx.nontrivial.add(jhash(c))
+        for site, cls, detail in fails:
+            ctx.violation(site, cls, {"f": "decode_big", "args": {k: v for k, v in c.items() if k != "f"}}, detail=detail)
+        for rq, g in mreqs:
+            reqs.append(rq)
+            expect.append(({"f": rq["f"], "args": rq}, {"c": g}, True))
     # `exhaustive` describes the decoder sweep only, and only the thorough tier reaches the bound the design names (n <= 9);
     # the generator cases below are sampled in both tiers
     ctx.exhaustive = not ctx.quick
@@ -1314,13 +1778,15 @@ def run(ctx):
     geometric_boundaries(ctx)
     evaluate(ctx, corpus_cases(), reqs, expect)
     evaluate(ctx, gen_cases(ctx), reqs, expect)
+    evaluate(ctx, h2_cases(ctx), reqs, expect)
     dis = compare(ctx, reqs, expect)
     for kk, vv in LAST["boundary"].items():
         ctx.stats[kk] += vv
     LAST["boundary"].clear()
     ctx.stats["cpu-budget-retries"] += LAST["retries"]      # calls repeated with 10x the CPU budget after a first expiry
     LAST["retries"] = 0
-    if (dis or not ok) and not [v for v in ctx.violations if v["kind"] == "concrete"]:
+    if (dis or not ok) and not [v for v in unlisted_violations(ctx) if v["kind"] == "concrete"]:
+        # (violations covered by known_findings do not count here: a listed finding must not mask a broken tie)
         # search harder on the implementation: the predicate on many more seeds of the generators involved
         more = gen_cases(ctx, scale=4)
         involved = {c["f"] for c, _, _, _ in dis}
@@ -1331,17 +1797,28 @@ def run(ctx):
             ctx.violation("model-tie", "unproven", {"broken": ctx.broken, "example": ctx.extra.get("disagreements", [])[:1]},
                           detail="; ".join(ctx.broken)[:500], kind="unproven", broken=ctx.broken)
     ctx.assumptions = [
-        "node labels are range(n) (or the integer keys of the degree dict); probabilities enter the model only through the "
-        "branch taken (== 0, == 1, otherwise) and through the recorded draws",
+        "node labels are range(n) (or the integer keys of the degree dict) for the generators that create their own nodes; the generators "
+        "that take a graph or a network (flag_complex, flag_complex_d2, shuffle_hyperedges) also get str, tuple, > 2**53 and int/str mixed "
+        "labels, read back through the inverse label map; probabilities enter the model only through the branch taken (== 0, == 1, "
+        "otherwise) and through the recorded draws",
+        "configuration model: 'never exceed the prescribed degrees' is strict for sequences with sum(k) % m == 0; a sequence with a remainder "
+        "is announced as not realizable (warning) and the documented adjustment raises m - remainder randomly chosen nodes by one: bound "
+        "prescribed + 1 on exactly those nodes (counted under config-model:*); the caller's dict k is copied for every call (the function "
+        "writes the adjustment into the dict it is given)",
+        "shuffle_hyperedges has no Lean model (predicate only); 'no repeated edge' is judged on inputs without repeated edges only; REGIME "
+        "cases (70-90 nodes) are predicate only",
         "geometric(p) >= 1 for every draw (checked on every recorded draw, including p = 1e-18, 1-1e-16); np.inf is replayed as 2**40",
-        "open finding (known_findings/C16.json): flag_complex / random_flag_complex with max_order=None make isolated nodes 1-node simplices; "
-        "the model describes the behaviour with proposed_fixes/C16-flag-complex-no-singletons.diff applied; cases that show the defect are "
-        "reported by the predicate (class singleton-simplex) and not replayed through the model",
+        "open findings (known_findings/C16.json): flag_complex / flag_complex_d2 with tuple or int/str mixed node labels, flag_complex with a numpy "
+        "array `ps`, shuffle_hyperedges repeating edges, node_swap on a network with a node labelled -1 (each with a proposed fix); _index_to_edge_partition loses the low bits of an index >= 2**53 (np.prod of the empty tail is the "
+        "float 1.0); the model (exact naturals) describes the behaviour with proposed_fixes/C16-index-to-edge-partition-exact-product.diff applied; "
+        "indices that show the defect are reported by the predicate (class not-bijection-large-index) and not replayed through the model.  "
+        "A flag complex holds the cliques with at least two nodes: a 1-node simplex is reported (singleton-simplex; fixed in /repo 6782803)",
         "every generator call runs under a CPU-time budget (2 s, sunflower 0.3 s; ITIMER_VIRTUAL) and is repeated once with ten times the "
         "budget before an expiry is reported as `nonterminating`",
         "itertools.combinations/product, scipy.special.comb, np.prod, networkx.enumerate_all_cliques/fast_gnp_random_graph appear as the pure "
         "functions they are documented to be; SimplicialComplex.add_simplices_from as face closure (C03)",
-        "index values below 2**53 (np.prod returns a float for the empty tail in _index_to_edge_partition)",
+        "decoders: exhaustive only up to the small bound; above it single indices (boundaries, ends, drawn) in index spaces beyond 2**53; the "
+        "combination decoder at that size is judged by the rank predicate alone (the model's Pascal-recursion choose is not runnable there)",
         "chung_lu / dcsbm / HPPM / mean-degree arithmetic is exact (Rat) in the model and binary floating point in the code: the uniform "
         "draws r are sent as the exact dyadic rationals they are, so `r < q / p` can differ only when r falls between the float and the "
         "exact quotient (not observed; it would show up as a correspondence failure, never silently); an HPPM tensor entry that "
@@ -1351,6 +1828,7 @@ def run(ctx):
         "np.random.choice(others, size=d-1, replace=False) returns d-1 distinct elements of `others` (checked on every recorded draw by "
         "the model: an inadmissible recorded choice is answered `unmodelled`, which is a correspondence failure)",
     ]
+    LAST["expired"].clear()
     return finish(ctx, trusted_base=TRUSTED_COMMON + [
         "harness/props/c16.py: RNG recording by monkeypatching (geometric, random.random, random.sample, np.random.random, "
         "np.random.choice, fast_gnp_random_graph, uniform_HSBM as called by uniform_HPPM), brute-force references (itertools subsets, "
@@ -1361,7 +1839,10 @@ def replay(ctx, path):
     """./check C16 --replay <file>: re-run the stored generator call / decoder sweep and re-evaluate the predicate"""
     j = json.load(open(path))
     case = j.get("case", j)
-    if case["f"].startswith("decode_"):
+    if case["f"] == "decode_big":
+        _, fails, _ = run_decoder_big(dict(case["args"], f=case["f"]))
+        fails = [(cls, d) for _, cls, d in fails]
+    elif case["f"].startswith("decode_"):
         _, fails = run_decoder(dict(case["args"], f=case["f"]))
         fails = [(cls, d) for _, cls, d in fails]
     elif case["f"] == "geometric":
